@@ -74,7 +74,7 @@ func argList(n int) (string, string) {
 	return strings.Join(ps, ", "), strings.Join(as, ", ")
 }
 
-const nMulti = 11
+const nMulti = 12
 
 func render(n *Node) string {
 	id := strconv.Itoa(n.ID)
@@ -191,16 +191,7 @@ func render(n *Node) string {
 	case "rethrow":
 		return "throw e" + strconv.Itoa(n.N)
 	case "rterr":
-		switch n.N % 4 {
-		case 0:
-			return "[1, 2][5]"
-		case 1:
-			return "nope" + id
-		case 2:
-			return "7 % 0"
-		default:
-			return "z" + id + " = 1\nz" + id + "()"
-		}
+		return rterrSrc(n.N, id)
 	case "break":
 		return "break"
 	case "continue":
@@ -302,6 +293,9 @@ func render(n *Node) string {
 			return pre + "func mr" + id + "() { return " + strings.Join(es, ", ") + " }\nmr" + id + "()"
 		case 9:
 			return pre + "m" + id + " = " + es[0] + " ?? " + es[1]
+		case 11:
+			// a two-value lookup whose container and index are sub-expressions that may fail
+			return pre + "mm" + id + " = {\"k\": 1}\n" + names[0] + ", " + names[1] + " = [mm" + id + ", " + es[0] + "][0][" + es[1] + "]"
 		case 10:
 			// a script function with exactly as many parameters as arguments (the direct call path)
 			var ps []string
@@ -375,6 +369,47 @@ type model struct {
 	fired       map[string]int
 }
 
+// rterrForms: statements that fail at run time on their own - every one of them is an ordinary script error (never a Go
+// panic) and aborts to the nearest try like a throw. %s is replaced by the node's id (fresh names).
+var rterrForms = []string{
+	"[1, 2][5]",
+	"nope%s",
+	"7 %% 0",
+	"z%s = 1\nz%s()",
+	"7 %% 0.5",
+	"7 %% \"0\"",
+	"7 %% false",
+	"7 %% nil",
+	"mq%s = {\"k\": 1}\nvq%s, okq%s = mq%s[[1, 2][5]]",
+	"aq%s = [1]\naq%s[2:1]",
+	"sq%s = \"abc\"\nsq%s[5]",
+	"nil.x",
+	"xq%s = 1\nxq%s.y = 2",
+	"make(nosuch%s)",
+	"fq%s = func(a) { }\nfq%s()",
+	"len(1)",
+	"hq%s = {}\nhq%s[[1]] = 1",
+	"<-1",
+	"1 <- 1",
+	"close(1)",
+	"for xq%s in 1 { }",
+	"import(\"nosuch\")",
+	"*1",
+	"delete(1)",
+	"uq%s++",
+	"wq%s = [1, 2]\nvw%s, okw%s = wq%s[5]",
+}
+
+func rterrSrc(n int, id string) string {
+	f := rterrForms[n%len(rterrForms)]
+	k := strings.Count(f, "%s")
+	args := make([]interface{}, k)
+	for i := range args {
+		args[i] = id
+	}
+	return fmt.Sprintf(f, args...)
+}
+
 // subMsg marks an expected message that must be CONTAINED in the actual one: how the text of a Go
 // panic is turned into the script error's text is not specified (a prefix or wrapping is fine)
 const subMsg = "\x00sub:"
@@ -382,8 +417,14 @@ const subMsg = "\x00sub:"
 func faultMsg(kind string, k int) string {
 	switch kind {
 	case "panic-string":
+		if k%5 == 4 {
+			return subMsg + ownTexts[(k/5)%len(ownTexts)]
+		}
 		return subMsg + "boom" + strconv.Itoa(k)
 	case "panic-error":
+		if k%5 == 3 {
+			return subMsg + ownTexts[(k/5)%len(ownTexts)]
+		}
 		return subMsg + "errboom" + strconv.Itoa(k)
 	case "panic-value":
 		return subMsg + strconv.Itoa(1000+k)
@@ -980,10 +1021,13 @@ func (g *gen) stmt(c gctx) *Node {
 			}
 			if g.r.Intn(10) == 0 {
 				msg = "" // an empty text is thrown like any other
+			} else if g.r.Intn(8) == 0 {
+				// so is a text that happens to be one of the interpreter's own messages
+				msg = ownTexts[g.r.Intn(len(ownTexts))]
 			}
 			return &Node{K: "throw", ID: id, Msg: msg}
 		case k == 16:
-			return &Node{K: "rterr", ID: id, N: g.r.Intn(4)}
+			return &Node{K: "rterr", ID: id, N: g.r.Intn(len(rterrForms))}
 		case k == 17 && len(c.loops) > 0 && !c.noBrk:
 			return &Node{K: []string{"break", "continue"}[g.r.Intn(2)], ID: id}
 		case k == 17 && len(c.loops) == 0 && !c.noBrk && !c.quirk && c.depth > 0 && g.r.Intn(2) == 0:
@@ -993,7 +1037,7 @@ func (g *gen) stmt(c gctx) *Node {
 		case k == 19 && !leaf:
 			n := &Node{K: "multi", ID: id, N: g.r.Intn(nMulti)}
 			cnt := 2 + g.r.Intn(2)
-			if n.N%nMulti == 9 || n.N%nMulti == 5 || n.N%nMulti == 6 {
+			if f := n.N % nMulti; f == 9 || f == 5 || f == 6 || f == 11 {
 				cnt = 2
 			}
 			for i := 0; i < cnt; i++ {
@@ -1010,6 +1054,9 @@ func (g *gen) stmt(c gctx) *Node {
 		}
 	}
 }
+
+// texts the interpreter itself uses for its errors: thrown by a script or carried by a host panic they are data
+var ownTexts = []string{"index out of range", "execution interrupted", "unexpected break statement", "unexpected continue statement", "unexpected return statement", "integer divide by zero", "undefined symbol 'e'", "invalid operation", "unknown statement"}
 
 var faultKinds = []string{"panic-string", "panic-error", "panic-value", "runtime-error", "error-result", "panic-unhashable"}
 
@@ -1278,7 +1325,7 @@ func valid(w *Work) bool {
 						return false
 					}
 				}
-				if f := n.N % nMulti; (f == 9 || f == 5 || f == 6) && len(n.Body) != 2 {
+				if f := n.N % nMulti; (f == 9 || f == 5 || f == 6 || f == 11) && len(n.Body) != 2 {
 					return false
 				}
 				if !chk(n.Body, c) {
